@@ -50,7 +50,10 @@ func (l *interpLogger) CaptureFault(uint64, vm.OpCode, uint64, uint64, *vm.Scope
 func (l *interpLogger) CaptureState(pc uint64, op vm.OpCode, gas, cost uint64, scope *vm.ScopeContext, rData []byte, depth int, err error) {
 	l.total++
 	if byte(op) == 0x20 && err == nil && l.unmodelled < 0 {
-		if d := scope.Stack.Data(); len(d) >= 2 && d[len(d)-1].IsUint64() && d[len(d)-2].IsUint64() && d[len(d)-2].Uint64() <= 1<<16 {
+		// an empty range is hashed whatever the offset word is (the memory-size function ignores the offset of an empty range)
+		if d := scope.Stack.Data(); len(d) >= 2 && d[len(d)-2].IsZero() {
+			l.hashed = append(l.hashed, []byte{})
+		} else if len(d) >= 2 && d[len(d)-1].IsUint64() && d[len(d)-2].IsUint64() && d[len(d)-2].Uint64() <= 1<<16 {
 			off, size := d[len(d)-1].Uint64(), d[len(d)-2].Uint64()
 			l.hashed = append(l.hashed, memSlice(scope.Memory.Data(), off, size))
 		}
@@ -391,11 +394,26 @@ func driveInterp(seed uint64, n int, size int, em *Emitter) {
 			genInterpCode(a, r, r.Intn(size/2+1), fork == "Cancun")
 		} else {
 			input = r.Bytes([]int{0, 4, 31, 32, 33, 68, 100}[r.Intn(7)])
+			if r.Chance(30) {
+				a.Op(0x60, 3, opJUMP, opJUMPDEST) // a jump that is taken: the jump-destination analysis of the whole code runs
+			}
 			genInterpCode(a, r, 1+r.Intn(size), fork == "Cancun")
 		}
 		code := a.Bytes()
 		if r.Chance(10) && len(code) > 2 {
 			code = code[:len(code)-1-r.Intn(len(code)/2)] // truncated, possibly in the middle of a PUSH
+		} else if r.Chance(20) {
+			// the code ends in a PUSH opcode whose operand bytes are all missing, at every length modulo 8 (the analysis
+			// marks operand bytes beyond the end of the code; its bitmap has slack for that)
+			code = append(append([]byte{}, code...), opSTOP)
+			want := r.Intn(8)
+			if r.Chance(50) {
+				want = 0
+			}
+			for (len(code)+1)%8 != want {
+				code = append(code, opSTOP)
+			}
+			code = append(code, []byte{0x7f, 0x7f, 0x7e, 0x77, 0x6f, 0x60}[r.Intn(6)])
 		}
 		gas := uint64([]int{0, 1, 2, 3, 20, 100, 799, 800, 801, 3000, 21000, 50000, 50000, 100000, 100000, 400000}[r.Intn(16)])
 		if r.Chance(30) {
